@@ -15,7 +15,7 @@ RULE = ('(a) start faults: every servlet tree of a fixed list (thread/process le
         'return to the baseline; then a *new* server is entered in the same process (GC thresholds swept) and must work; (b) stop: trees x prior workload '
         '{none, successes, failures, timed-out calls, abandoned stream with 50-400 pending requests of 0.1-4 kB, abandoned stream with large payloads through '
         'multi-worker process stages} x 3 enter/exit cycles of the same server object: __exit__ returns within the bound, census back to baseline, re-entry '
-        'answers correctly. non-trivial = a failing worker position or a workload that leaves requests pending at exit; distinct = distinct case tuples')
+        'answers correctly. non-trivial = a failing worker position or a workload that leaves requests pending at exit; distinct = distinct case tuples; transient init failures (flag file): after the failed __enter__ the cause is removed and the SAME server object is entered, used and left twice')
 ASSUMPTIONS = ['"bounded time" for __enter__/__exit__: 60 s (thread trees: typical 10-50 ms; process trees: 0.3-1.5 s) AND three identical stack samples 1 s apart',
                'leak = any child process, any non-daemon thread, any mpservice Thread still alive 5 s after the call returned; stdlib QueueFeederThread daemons are reported only']
 CASE_TIMEOUT = 300
